@@ -102,6 +102,15 @@ func (w *World) monResendOrder(h []ev) {
 				continue
 			}
 			if exp := resuming[e.conn]; isResend && len(exp) > 0 {
+				known := false
+				for _, x := range exp {
+					known = known || x == id
+				}
+				if !known {
+					// stored but never seen on the wire (a dying dequeuer recorded it and its write failed), or recorded on
+					// account of a spurious PUBREC: its place relative to the packets transmitted earlier is not defined
+					continue
+				}
 				if exp[0] != id {
 					w.hit("resend-order", fmt.Sprintf("connection %d retransmits id %d, but id %d was transmitted earlier (expected order %v)", e.conn, id, exp[0], exp))
 					resuming[e.conn] = nil
@@ -588,6 +597,12 @@ func (w *World) monWindow(h []ev) {
 					spuriousID[cidOf(e.conn)] = true
 				}
 				delete(inflight[e.conn], p.ID)
+			case *packet.Pubrec:
+				// a PUBREC for something never received makes the broker record (and later release) a PUBREL that never
+				// held a window slot: the peer widens its own window
+				if !inflight[e.conn][p.ID] {
+					spuriousID[cidOf(e.conn)] = true
+				}
 			}
 		}
 	}
